@@ -6,7 +6,7 @@
 //@ struct file=src/sys/fs/memfs/file.rs name=MemfsFile
 //@ endstruct
 //@ struct file=src/sys/fs/memfs/entry.rs name=MemfsEntry
-//@ rw R4 1 ⟦Option<HashSet<String>>⟧ => ⟦Option<NameSet>⟧
+//@ rw R4 * ⟦Option<HashSet<String>>⟧ => ⟦Option<NameSet>⟧
 //@ endstruct
 
 // HashMap<PathBuf, MemfsEntry> as a finite map keyed by the absolute clean path (ASSUMED[hashmap])
@@ -176,10 +176,10 @@ pub open spec fn stack_ok(g: St, ps: Seq<PathBuf>) -> bool {
 //@ sig pub(crate) fn _clone_entries<T: AsRef<Path>>(&self, guard: &MemfsGuard, path: T) -> RvResult<MemfsEntries>
 // R2: the parameter `path` is renamed `path0` (the loop's `while let Some(path)` binding shadows it; Verus cannot name a shadowed parameter in an invariant)
 //@ rw R11 1 ⟦self._abs(guard, path)?⟧ => ⟦_abs(guard, path0)?⟧
-//@ rw R4 1 ⟦HashMap::new()⟧ => ⟦MemfsEntries::new()⟧
+//@ rw R4 * ⟦HashMap::new()⟧ => ⟦MemfsEntries::new()⟧
 //@ rw R9 1 ⟦vec![abs]⟧ => ⟦vec_of1(abs)⟧
 //@ rw R3 1 ⟦for name in files {⟧ => ⟦for name in files.iter() {⟧
-//@ rw R1 1 ⟦paths.push(entry.path().mash(name));⟧ => ⟦paths.push(entry.path().mash_name(&name));⟧
+//@ rw R1 * ⟦paths.push(entry.path().mash(name));⟧ => ⟦paths.push(entry.path().mash_name(&name));⟧
 //@ rw R3 1 for
 //@ ins after ⟦let mut paths = vec_of1(abs);⟧
         let ghost g = guard.st();
